@@ -38,7 +38,9 @@ Definition mbin (op : aop) (a b : mval) : mval :=
   end.
 
 (* array * 2**k : a Python int factor for k >= 0 (NEP 50: the array dtype is kept and the
-   product wraps; OverflowError if the factor itself does not fit), a Python float for k < 0 *)
+   product wraps; OverflowError if the factor itself does not fit), a Python float for k < 0
+   (functions._rescale: for values of more than 53 bits the code uses exact rationals instead;
+   not modelled, outside the theorems' domain of at most 53-bit intermediate results) *)
 Definition mscale (v : mval) (k : Z) : outcome mval :=
   if 0 <=? k then
     match v with
